@@ -63,6 +63,20 @@ def _sign_fix(q, ref):
   return q * s
 
 
+def _near_tangent_wrap(mjm, mjd):
+  """True if some tendon wraps a geom with its two tangent points closer than 5% of the geom radius (MuJoCo's result)."""
+  wx = np.array(mjd.wrap_xpos).reshape(-1, 3)
+  wo = np.array(mjd.wrap_obj).reshape(-1)
+  for t in range(mjm.ntendon):
+    a, n = int(mjd.ten_wrapadr[t]), int(mjd.ten_wrapnum[t])
+    for i in range(a, a + n - 1):
+      if wo[i] >= 0 and wo[i + 1] == wo[i]:
+        r = float(mjm.geom_size[wo[i], 0])
+        if np.linalg.norm(wx[i + 1] - wx[i]) < 0.05 * r:
+          return True
+  return False
+
+
 def check(case, rec):
   spec = gen.make_spec(case["cfg"])
   mjm = H.compile_spec(spec)
@@ -111,6 +125,15 @@ def check(case, rec):
       if not np.array_equal(mjd2.ten_wrapnum, mjd.ten_wrapnum) or np.max(np.abs(mjd2.ten_length - mjd.ten_length)) > 1e-3:
         skip_tendon = True
         rec.boundary_skipped += 1
+    # near-tangent wraps: MuJoCo's two wrap points on a sphere/cylinder almost coincide (chord < 5% of the radius).  MJWarp's float32
+    # wrap picks the long arc around the object there for some geometries (recorded finding wrap:near-tangent-arc); the tendon
+    # outputs of such a world are attributed to that finding when they differ, and judged normally when they agree.
+    if mjm.ntendon and mjm.nwrap and not skip_tendon and _near_tangent_wrap(mjm, mjd):
+      g_len = got["ten_length"][w].reshape(np.asarray(mjd.ten_length).shape)
+      if np.max(np.abs(g_len - mjd.ten_length)) > 1e-4 * max(1.0, float(np.max(np.abs(mjd.ten_length)))):
+        rec.violation(f"tendon length differs at a near-tangent wrap: {g_len.tolist()} vs {np.asarray(mjd.ten_length).tolist()}", sig="wrap:near-tangent-arc", world=w)
+        skip_tendon = True
+        rec.cls("skipped:near-tangent-wrap")
     scale = max(1.0, float(np.max(np.abs(mjd.xpos))))
     for k, tol in fields.items():
       if k == "ten_length" and skip_tendon:
